@@ -17,10 +17,10 @@ func propC15() *Property {
 		Decides:    "R15.1 the stored session deadlines are written only by the three deadline setters (so a deadline bounds every later Read/Write until changed); R15.2 every close() of a lifecycle channel is guarded by a winning CAS / done-check under the owner's mutex / sync.Once (repeatable Close, no double-close panic); R15.3 every blocking channel operation in the session/underlay/mux code selects on a shutdown channel of its owner; R15.4 underlay Close pokes blocked network I/O (past deadline) before closing sessions, under closeMutex after the done check; on a stream connection (net.Conn) the poke must release blocked writes as well, because the output loop can be parked in conn.Write while holding the lock Session.Close needs; R15.5 after RunEventLoop returns - with nil, EOF, closed or any error - the goroutine that ran it calls underlay.Close() on every path.; R15.6 a stored deadline always arms a timer in Read and writeChunk (also when it has already passed); R15.7 Session.Close takes no lock that Read/Write hold across a blocking wait",
 		NotDecided: "promptness in seconds, goroutine counts at run time, data-race freedom in general, schedules.",
 		Rules: []Rule{
-			{ID: "R15.1", Floor: 3, Text: "every store to Session.readDeadline / Session.writeDeadline is in SetDeadline, SetReadDeadline or SetWriteDeadline", Run: r15_1},
+			{ID: "R15.1", Floor: 2, Text: "every store to Session.readDeadline / Session.writeDeadline is in SetDeadline, SetReadDeadline or SetWriteDeadline", Run: r15_1},
 			{ID: "R15.2", Floor: 8, Text: "every close(ch) of a struct-field channel in pkg/protocol, apis/client, apis/server is dominated by a winning CompareAndSwap, a sync.Once, or a closed-check of the same channel under a held mutex", Run: r15_2},
 			{ID: "R15.3", Floor: 10, Text: "every blocking select/send/receive in pkg/protocol (session, underlay, mux) has a shutdown alternative (closedChan, done, ctx.Done, timer) or a default case", Run: r15_3},
-			{ID: "R15.5", Floor: 2, Text: "after RunEventLoop returns, for whatever reason, the goroutine that ran it closes the underlay on every path", Run: r15_5},
+			{ID: "R15.5", Floor: 1, Text: "after RunEventLoop returns, for whatever reason, the goroutine that ran it closes the underlay on every path", Run: r15_5},
 			{ID: "R15.6", Floor: 2, Text: "a stored deadline always arms a timer in Read and writeChunk (also when it has already passed)", Run: r15_6},
 			{ID: "R15.7", Floor: 2, Text: "Session.Close takes no lock that Read/Write hold across a blocking wait", Run: r15_7},
 			{ID: "R15.4", Floor: 2, Text: "StreamUnderlay.Close and PacketUnderlay.Close: closeMutex held, done checked, conn.Set(Read)Deadline called before baseUnderlay.Close", Run: r15_4},
@@ -233,8 +233,28 @@ func closeGuard(p *Prog, fn *ssa.Function, in ssa.Instruction, ch *types.Var) st
 			return "same channel polled before close and every static caller holds a mutex across the call"
 		}
 	}
+	// (g) the close sits in an unexported helper (the tail of a Close method
+	// split off): guarded when every call of the helper is guarded the same way
+	if fn.Parent() == nil && fn.Object() != nil && !fn.Object().Exported() && !closeGuardBusy[fn] {
+		closeGuardBusy[fn] = true
+		defer delete(closeGuardBusy, fn)
+		callers := p.CallsToFn(fn)
+		why := ""
+		for _, cs := range callers {
+			w := closeGuard(p, cs.Fn, cs.Instr, ch)
+			if w == "" {
+				return ""
+			}
+			why = w
+		}
+		if len(callers) > 0 {
+			return "every call of " + fn.Name() + " is guarded: " + why
+		}
+	}
 	return ""
 }
+
+var closeGuardBusy = map[*ssa.Function]bool{}
 
 func fnReferrers(fn *ssa.Function) *[]ssa.Instruction {
 	var out []ssa.Instruction
